@@ -99,7 +99,9 @@ PlaneOpsOK(r) == \E c \in {[n |-> V(r.t, r.n), q |-> V(r.t, r.q), rq |-> V(r.t, 
 PlaneLineOK(r) == \E c \in {[n |-> V(r.t, r.n), pos |-> V(r.t, r.pos), dir |-> V(r.t, r.dir), pt |-> V(r.t, r.pt), lt |-> V(r.t, r.lt)]} :
     LET t == r.t  dist == S(t, r.dist)
         nd == DotV(c.n, c.dir)  and == D!DAbs(nd)
-    IN  IF D!DIsZero(nd) THEN r.ok = 0 /\ r.okT = 0
+        \* an axis-aligned normal: n.dir is then a single product, computed without rounding
+        axisAligned == Cardinality({i \in 1..3 : ~D!DIsZero(c.n[i])}) = 1
+    IN  IF D!DIsZero(nd) THEN (IF axisAligned THEN r.ok = 0 /\ r.okT = 0 ELSE r.ok = r.okT)     \* (a rounded n.dir need not be exactly zero)
         ELSE IF D!DLt(and, D!Pow2(-10)) THEN r.ok = r.okT
         ELSE LET sc == D!DAdd(Sc(<<c.pos, c.pt>>), D!DAbs(dist))  tol == D!DMul(E(t), sc) IN
              /\ r.ok = 1 /\ r.okT = 1 /\ FinAll(t, r.pt)
